@@ -99,6 +99,12 @@ impl HonestPeer {
                     return Err("start beyond last".into());
                 }
                 if self.td_at(c, &chain, start_number - 1) >= *first {
+                    // With a start block of ANOTHER branch the comparison is made with the server's own block at that
+                    // height, which can be heavier than the client's start: a well-formed request that this server
+                    // cannot answer (it replies with an error status, nothing the client can use).
+                    if !start_on_chain {
+                        return Err("unanswerable: the start block is on another branch and lighter than this chain at its height".into());
+                    }
                     return Err("first difficulty not above start".into());
                 }
             }
